@@ -142,6 +142,9 @@ pub struct BinOpts {
     /// fails with ENOSPC), 2 = a pipe whose reading end is closed (EPIPE / SIGPIPE)
     pub stdout_sink: u8,
     pub stderr_sink: u8,
+    /// the program is started with SIGCHLD ignored (a disposition that survives exec, as after
+    /// `trap '' CHLD` in the invoking shell): children are then reaped by the kernel
+    pub ignore_sigchld: bool,
 }
 
 fn sink(kind: u8) -> std::fs::File {
@@ -364,8 +367,12 @@ impl Ctx {
         }
         let stack = opts.stack_limit;
         let uid = opts.uid;
+        let ignore_sigchld = opts.ignore_sigchld;
         unsafe {
             cmd.pre_exec(move || {
+                if ignore_sigchld {
+                    libc::signal(libc::SIGCHLD, libc::SIG_IGN);
+                }
                 if let Some(s) = stack {
                     let v = if s == u64::MAX { libc::RLIM_INFINITY } else { s as libc::rlim_t };
                     let rl = libc::rlimit { rlim_cur: v, rlim_max: v };
